@@ -1,7 +1,8 @@
 """Generator of p0f database files (valid and single-fault corrupted) for C09 / C10 / C11 / C15."""
 from harness import tcpgen as G
 
-NAMES = ["Linux", "Windows", "Mac OS X", "FreeBSD", "nmap", "curl", "Open-BSD (x)", "a.b,c", "X"]
+NAMES = ["Linux", "Windows", "Mac OS X", "FreeBSD", "nmap", "curl", "Open-BSD (x)", "a.b,c", "X",
+         "A\u030angstro\u0308m", "\u2126S"]        # (not NFC-stable: A + combining ring, OHM SIGN - kept as written)
 FLAV = ["3.x", "", "7 or 8", "2.6.x (loopback)", "NT kernel", "x,y"]
 CLASSES = ["unix", "win", "!", "other", "", "cisco", "Unix", "WIN", "x y"]
 HDR_NAMES = ["Host", "User-Agent", "Accept", "Accept-Encoding", "Connection", "Keep-Alive", "Server", "Date", "Content-Type",
